@@ -97,6 +97,17 @@ def parseItem (s : String) : Option Op :=
         ∧ (fragmenting ∨ ¬ transportNumbers.contains key.payloadIpNumber) then
       pure (.deliver (.frag key fo mf b) ts)
     else none
+  | ["d", key, ts, fo, mf, h, rsv] => do
+    -- reserved bits of the IPv4 flags / the IPv6 fragment header: carried on the wire, without meaning
+    -- (RFC 791, RFC 8200 4.5), so the abstract fragment is the same
+    let key ← parseKey key; let ts ← argNat ts; let fo ← argNat fo; let mf ← argBool mf; let b ← argHex h
+    let rsv ← argNat rsv
+    let maxPayload := if key.ver = 4 then 65515 else 65527
+    let fragmenting := mf ∨ fo ≠ 0
+    if 0 < rsv ∧ rsv ≤ 7 ∧ ts < 18446744073709551616 ∧ fo ≤ 8191 ∧ b.length ≤ maxPayload
+        ∧ (fragmenting ∨ ¬ transportNumbers.contains key.payloadIpNumber) then
+      pure (.deliver (.frag key fo mf b) ts)
+    else none
   | ["u", key, ts, h] => do
     let key ← parseKey key; let ts ← argNat ts; let b ← argHex h
     let maxPayload := if key.ver = 4 then 65515 else 65535
